@@ -305,7 +305,27 @@ pub fn freezerun_main(args: &[String]) -> i32 {
     if crash_at > 0 {
         ckb_db::verif::CRASH_AT.store(before + crash_at, std::sync::atomic::Ordering::SeqCst);
     }
+    // I/O-error family: a write of this pass fails once (the interposer reads the variable)
+    let iofail = std::env::var("VERIF_IOFAIL_SPEC").ok();
+    if let Some(spec) = &iofail {
+        unsafe { std::env::set_var("VERIF_IOFAIL", spec) };
+    }
     let r = node.shared.verif_freeze_once();
+    if iofail.is_some() {
+        unsafe { std::env::set_var("VERIF_IOFAIL", "") };
+        // the production freezer thread ends at the first pass that returns an error and keeps
+        // ticking otherwise: the next passes of this process
+        let mut more = 0;
+        if r.is_ok() {
+            for _ in 0..3 {
+                more += 1;
+                if node.shared.verif_freeze_once().is_err() {
+                    break;
+                }
+            }
+        }
+        println!("IOFAIL pass={} later_passes={more}", if r.is_ok() { "ok" } else { "err" });
+    }
     let after = ckb_db::verif::POINTS.load(std::sync::atomic::Ordering::SeqCst);
     println!("POINTS {} RESULT {:?}", after - before, r.map_err(|e| e.to_string()));
     // positions (1-based, within the pass) of the freezer's own points; database writes are not named
@@ -393,6 +413,12 @@ pub fn run(ctx: &Ctx) -> Report {
         let only: Option<(usize, u64)> = replay.as_ref().map(|v| (v["deliver"].as_u64().unwrap() as usize, v["crash_at"].as_u64().unwrap()));
         if let Err(e) = crash_family(ctx, &cons, &u, &dl, only, &mut report) {
             report.machinery_errors.push(format!("crash family: {e}"));
+        }
+    }
+    // ---------------- I/O-error family
+    if replay.is_none() || want_family.as_deref() == Some("io-error") {
+        if let Err(e) = io_error_family(ctx, &cons, &u, &dl, replay.as_ref(), &mut report) {
+            report.machinery_errors.push(format!("I/O-error family: {e}"));
         }
     }
     // ---------------- power-loss family
@@ -734,6 +760,118 @@ fn loss_patterns(files: &BTreeMap<String, (u64, u64)>) -> Vec<Cuts> {
         }
     }
     out
+}
+
+// ---------------------------------------------------------------------------------------
+// I/O-error family.  Not a crash: one write of the freeze pass fails (a disk that is full for a
+// moment: ENOSPC from the interposer, once) and the process lives on.  For the n-th write to the
+// index file and to the data files, every n of the pass: the pass runs with the fault; if it
+// reports success the freezer thread of a real node keeps ticking (three more passes in the same
+// process), if it reports an error that thread ends; then the node is restarted and judged like a
+// crash image (every getter against the never-freezing twin, the next pass, the extended chain).
+fn io_error_family(ctx: &Ctx, cons: &Consensus, u: &Universe, dl: &[(String, BlockView)], replay: Option<&Value>, report: &mut Report) -> Result<(), String> {
+    let exe = std::env::current_exe().map_err(|e| e.to_string())?;
+    let idx_of = |n: u64| dl.iter().position(|(name, _)| name == &format!("M{n}")).unwrap() + 1;
+    let only: Option<(usize, String, u64)> = replay.map(|v| (v["deliver"].as_u64().unwrap() as usize, v["target"].as_str().unwrap_or("INDEX").to_string(), v["nth_write"].as_u64().unwrap()));
+    let passes: Vec<usize> = match &only {
+        Some((d, _, _)) => vec![*d],
+        None => vec![idx_of(12), idx_of(16)],
+    };
+    ckb_freezer::VERIF_MAX_FILE_SIZE.store(POWER_LOSS_FILE_SIZE, std::sync::atomic::Ordering::SeqCst);
+    let r = (|| -> Result<(), String> {
+        let mut unit = 0u64;
+        for deliver in passes {
+            let spec = FreezeRunSpec { blocks_hex: dl.iter().map(|(_, b)| hex_block(b)).collect(), deliver };
+            let spec_file = ctx.scratch.join(format!("iospec-{deliver}.json"));
+            std::fs::write(&spec_file, serde_json::to_string(&spec).unwrap()).unwrap();
+            let twin = twin_at(ctx, cons, dl, dl.len(), &format!("io-{deliver}"))?;
+            let twin_same = twin_at(ctx, cons, dl, deliver, &format!("io-same-{deliver}"))?;
+            let tb_same = battery(twin_same.shared.store(), u, cons, deliver);
+            let tb_full = battery(twin.shared.store(), u, cons, dl.len());
+            for target in ["INDEX", "blk"] {
+                if let Some((_, t, _)) = &only {
+                    if t != target {
+                        continue;
+                    }
+                }
+                let mut n = 0u64;
+                loop {
+                    n += 1;
+                    if let Some((_, _, on)) = &only {
+                        if n != *on {
+                            if n > *on {
+                                break;
+                            }
+                            continue;
+                        }
+                    }
+                    if n > 200 {
+                        return Err(format!("more than 200 writes to {target} in one pass?"));
+                    }
+                    unit += 1;
+                    // (every shard has to learn where the writes of the pass end: the children are cheap,
+                    // the judgement of an image is sharded)
+                    let dir = ctx.scratch.join(format!("iodata-{deliver}-{target}-{n}"));
+                    let log = ctx.scratch.join(format!("iolog-{deliver}-{target}-{n}.log"));
+                    let _ = std::fs::remove_dir_all(&dir);
+                    let _ = std::fs::remove_file(&log);
+                    let out = Command::new(&exe)
+                        .arg("freezerun")
+                        .arg(&spec_file)
+                        .arg(&dir)
+                        .arg("0")
+                        .env("LD_PRELOAD", fsynclog_so()?)
+                        .env("FSYNCLOG", &log)
+                        .env("VERIF_FREEZER_FILE_SIZE", POWER_LOSS_FILE_SIZE.to_string())
+                        .env("VERIF_IOFAIL_SPEC", format!("ancient/{}:{n}", if target == "INDEX" { "INDEX" } else { "blk" }))
+                        .output()
+                        .map_err(|e| e.to_string())?;
+                    let so = String::from_utf8_lossy(&out.stdout).to_string();
+                    if out.status.code() != Some(0) {
+                        // a panic of the node on an I/O error is a finding of its own
+                        let err = String::from_utf8_lossy(&out.stderr).lines().rev().take(4).collect::<Vec<_>>().join(" | ");
+                        report.violation("io-error/process-died", format!("the {n}-th write to {target} of the freeze pass at delivery {deliver} fails once with ENOSPC: the process exits with {:?}: {err}", out.status.code()), json!({"family": "io-error", "deliver": deliver, "target": target, "nth_write": n}));
+                        let _ = std::fs::remove_dir_all(&dir);
+                        continue;
+                    }
+                    let fired = std::fs::read_to_string(&log).map(|t| t.lines().any(|l| l.starts_with("iofail "))).unwrap_or(false);
+                    if !fired {
+                        // the pass has fewer than n writes to this target
+                        let _ = std::fs::remove_dir_all(&dir);
+                        let _ = std::fs::remove_file(&log);
+                        report.max_counter(&format!("max_io_error_writes_to_{target}_per_pass"), n - 1);
+                        if n == 1 {
+                            return Err(format!("no write to {target} was seen in the pass at delivery {deliver}"));
+                        }
+                        break;
+                    }
+                    let outcome = so.lines().find_map(|l| l.strip_prefix("IOFAIL ")).unwrap_or("").to_string();
+                    report.outcomes.insert(fp(&("io-error", outcome.clone())));
+                    if only.is_none() && !ctx.mine(unit) {
+                        let _ = std::fs::remove_dir_all(&dir);
+                        let _ = std::fs::remove_file(&log);
+                        continue;
+                    }
+                    if ctx.out_of_time() {
+                        report.cap_hit = Some(format!("wall budget reached in the I/O-error family at pass {deliver}, write {n} to {target}"));
+                        let _ = std::fs::remove_dir_all(&dir);
+                        return Ok(());
+                    }
+                    let label = json!({"family": "io-error", "deliver": deliver, "target": target, "nth_write": n, "file_size_limit": POWER_LOSS_FILE_SIZE, "what_the_process_did": outcome});
+                    let what = format!("the {n}-th write to the freezer's {} during the freeze pass fails once with ENOSPC ({outcome}), the process lives on and is restarted later", if target == "INDEX" { "index file" } else { "data files" });
+                    recover_and_judge(cons, u, dl, &dir, deliver, "io-error", &what, &label, &tb_same, &tb_full, n == 1, report)?;
+                    report.count("io_error_images", 1);
+                    let _ = std::fs::remove_dir_all(&dir);
+                    let _ = std::fs::remove_file(&log);
+                }
+            }
+            twin.shutdown();
+            twin_same.shutdown();
+        }
+        Ok(())
+    })();
+    ckb_freezer::VERIF_MAX_FILE_SIZE.store(0, std::sync::atomic::Ordering::SeqCst);
+    r
 }
 
 fn power_loss_family(ctx: &Ctx, cons: &Consensus, u: &Universe, dl: &[(String, BlockView)], replay: Option<&Value>, report: &mut Report) -> Result<(), String> {
